@@ -20,6 +20,10 @@ inductive XNode where
 /-- the root node's children -/
 structure XDoc where
   kids : List XNode
+  /-- the document has a document type declaration (id() is only answered without one) -/
+  hasDoctype : Bool := false
+  /-- recorded finding `negzero-string`: string() of negative zero is "-0" -/
+  negZeroQuirk : Bool := false
   deriving Inhabited
 
 def xmlNsUri : Str := "http://www.w3.org/XML/1998/namespace".toList
@@ -136,7 +140,7 @@ def buildDoc (wsQuirk reqQuirk : Bool) (d : IDoc) : Except XErr XDoc :=
         | .ok n => match tops r with | .ok x => .ok (n :: x) | .error e => .error e)
   match tops d.kids with
   | .error e => .error e
-  | .ok ks => .ok ⟨ks⟩
+  | .ok ks => .ok { kids := ks, hasDoctype := dt.isSome }
 
 /-! ### navigation by key -/
 
